@@ -96,6 +96,8 @@ impl ReaderThreadPool {
         self.pool.spawn(|| {
             #[cfg(feature = "verif")]
             let _verif_done = seglog::verif::OnDrop("reader:job-", 0, 0);
+            #[cfg(feature = "verif")]
+            seglog::verif::point("reader:job:start", 0, 0);
             let with_reader = |op: IN| READERS.with_borrow_mut(op);
             op(with_reader)
         })
